@@ -36,6 +36,8 @@ def full_obs(b, d):
     o['connsets'] = sets
     o['dvv'] = sorted([b.inv[n], int(v) if b.g['nodes'][b.inv[n]-1]['disc'] else q(v)] for n, v in d.des_var_values.items() if n in b.inv)
     o['ncons'] = len(d.get_choice_constraints())
+    # connection choices the object lists among its next choices
+    o['nextcc'] = sorted(b.ccinv[c] for c in (d.get_ordered_next_choice_nodes() if o['feasible'] else []) if c in b.ccinv)
     return o
 
 
@@ -134,8 +136,14 @@ class Replayer:
                     if pair:
                         break
                 if pair:
+                    kind = {1: ChoiceConstraintType.LINKED, 2: ChoiceConstraintType.PERMUTATION,
+                            3: ChoiceConstraintType.UNORDERED_NOREPL}.get(op['k'], ChoiceConstraintType.LINKED)
+                    members = pair
+                    if op['k'] in (2, 3):     # every free active choice with that option count (may be unsatisfiable)
+                        n = len(d.get_option_nodes(pair[0]))
+                        members = [c for c in free if len(d.get_option_nodes(c)) == n][:3]
                     cp = d.copy()
-                    new = cp.constrain_choices(ChoiceConstraintType.LINKED, pair)
+                    new = cp.constrain_choices(kind, members)
                 else:
                     skipped = True
             elif name == 'Decode':
